@@ -13,7 +13,7 @@ from .kcheck import KItem
 
 PROP = 'C07'
 QUOTAS = {
-    'quick': {'cheap': 2, 'medium': 2, 'heavy': 0, 'F1:cheap': 8, 'F2:medium': 6, 'F3:medium': 3, 'F4:medium': 3, 'R:cheap': 3, 'R:medium': 3},
+    'quick': {'cheap': 1, 'medium': 1, 'heavy': 0, 'F1:cheap': 5, 'F2:medium': 4, 'F3:medium': 2, 'F4:medium': 2, 'R:cheap': 2, 'R:medium': 2},
     'thorough': {'cheap': 60, 'medium': 40, 'heavy': 4, 'F1:cheap': 200, 'F2:medium': 80, 'R:cheap': 40, 'R:medium': 40},
 }
 
